@@ -1,13 +1,15 @@
 (* C03: the one-time-pad theorem for lists of deliveries, and its use on the protocol gadgets. *)
+From Coq Require Import Ring.
 From CC Require Import Base.Prelude Model.Privacy.
 
 Section OTP.
   Variable G : Type.
   Variables (gadd : G -> G -> G) (gneg : G -> G) (gzero : G).
-  Hypothesis gadd_comm : forall a b, gadd a b = gadd b a.
-  Hypothesis gadd_assoc : forall a b c, gadd a (gadd b c) = gadd (gadd a b) c.
-  Hypothesis gadd_0_l : forall a, gadd gzero a = a.
-  Hypothesis gadd_neg : forall a, gadd a (gneg a) = gzero.
+  (* the values form a commutative ring (arrays of one shape over Z_2^w, pointwise); only the
+     additive group is used, the ring structure gives access to the [ring] tactic *)
+  Variables (gone : G) (gmul gsubr : G -> G -> G).
+  Hypothesis Gring : ring_theory gzero gone gadd gmul gsubr gneg eq.
+  Add Ring GrOTP : Gring.
   Variable cell : Type.
   Variable cell_eqb : cell -> cell -> bool.
   Hypothesis cell_eqb_spec : forall a b, cell_eqb a b = true <-> a = b.
@@ -24,17 +26,12 @@ Section OTP.
   Notation sgn := (sgn G gneg).
   Notation gsub := (gsub G gadd gneg).
 
-  Lemma gadd_0_r a : gadd a gzero = a.
-  Proof. rewrite gadd_comm. apply gadd_0_l. Qed.
   Lemma gneg_neg a : gneg (gneg a) = a.
-  Proof.
-    rewrite <- (gadd_0_r (gneg (gneg a))). rewrite <- (gadd_neg a).
-    rewrite (gadd_comm a), gadd_assoc, (gadd_comm (gneg (gneg a))), gadd_neg. apply gadd_0_l.
-  Qed.
+  Proof. ring. Qed.
   Lemma sgn_sgn b a : sgn b (sgn b a) = a.
   Proof. destruct b; cbn; auto using gneg_neg. Qed.
   Lemma sub_add a b : gadd (gsub a b) b = a.
-  Proof. unfold gsub. rewrite <- gadd_assoc, (gadd_comm (gneg b)), gadd_neg. apply gadd_0_r. Qed.
+  Proof. unfold Privacy.gsub. ring. Qed.
 
   Lemma cell_eqb_refl c : cell_eqb c c = true.
   Proof. now apply cell_eqb_spec. Qed.
@@ -85,8 +82,9 @@ Section OTP.
       set (w := upd b (d_mask G cell X d) (sgn (d_neg G cell X d) (gsub (msg d x' T) (d_rest G cell X d x b)))).
       assert (E : d_rest G cell X d x b = d_rest G cell X d x t) by (apply (Hi x); exact Hb).
       assert (Ew : w (d_mask G cell X d) = t (d_mask G cell X d)).
-      { unfold w. rewrite upd_same, Md, E. unfold Privacy.msg, gsub.
-        rewrite <- gadd_assoc, gadd_neg, gadd_0_r. apply sgn_sgn. }
+      { unfold w. rewrite upd_same, Md, E. unfold Privacy.msg, Privacy.gsub.
+        set (a := sgn (d_neg G cell X d) (t (d_mask G cell X d))). set (e := d_rest G cell X d x t).
+        replace (gadd (gadd a e) (gneg e)) with a by ring. apply sgn_sgn. }
       apply (IH x x' t T w Hr Mr).
       intros c' Hc'. destruct (cell_eqb c' (d_mask G cell X d)) eqn:Ed.
       + apply cell_eqb_spec in Ed. subst c'. exact Ew.
@@ -115,3 +113,138 @@ Section OTP.
     - intros t c Hc. apply rerand_other. exact Hc.
   Qed.
 End OTP.
+
+(* ------------------------------------------------------------------ gadgets *)
+Section Gadgets.
+  Variable G : Type.
+  Variables (gadd : G -> G -> G) (gneg : G -> G) (gzero : G).
+  (* the values form a commutative ring (arrays of one shape over Z_2^w, pointwise); only the
+     additive group is used, the ring structure gives access to the [ring] tactic *)
+  Variables (gone : G) (gmul gsubr : G -> G -> G).
+  Hypothesis Gring : ring_theory gzero gone gadd gmul gsubr gneg eq.
+  Add Ring GrGadgets : Gring.
+  Variable X : Type.
+
+  Notation tape := (tape G nat).
+  Notation gsub := (gsub G gadd gneg).
+  Definition nxt (p : nat) : nat := match p with 0 => 1 | 1 => 2 | _ => 0 end%nat.
+  Definition prv (p : nat) : nat := match p with 0 => 2 | 1 => 0 | _ => 1 end%nat.
+
+  Lemma nat_eqb_spec a b : Nat.eqb a b = true <-> a = b.
+  Proof. apply Nat.eqb_eq. Qed.
+
+  (* --- input sharing (share_node): share_i = r_i - r_{i+1} (+ x for the owner), share_i is sent
+         by party i to party i-1.  Party p holds r_p, r_{p+1} and receives share_{p+1}. *)
+  Definition in_share (o i : nat) (x : G) (t : tape) : G :=
+    gadd (gsub (t i) (t (nxt i))) (if Nat.eqb o i then x else gzero).
+  Definition share_delivery (o p : nat) : delivery G nat G :=
+    mkD G nat G (nxt (nxt p)) true
+        (fun x t => gadd (t (nxt p)) (if Nat.eqb o (nxt p) then x else gzero)).
+
+  Lemma share_delivery_is_message o p x t :
+    msg G gadd gneg nat G (share_delivery o p) x t = in_share o (nxt p) x t.
+  Proof.
+    unfold Privacy.msg, share_delivery, in_share, Privacy.gsub, Privacy.sgn. cbn. ring.
+  Qed.
+
+  Lemma share_delivery_otp o p : otp_ok G nat Nat.eqb G [share_delivery o p].
+  Proof.
+    cbn. split; [|split; auto]. intros x t t' H. cbn.
+    rewrite (H (nxt p)); auto. cbn. destruct p as [|[|p]]; reflexivity.
+  Qed.
+
+  (* what the non-owner receives has the same distribution for any two secrets: a bijection of
+     the tape space that leaves the observer's own PRF values r_p, r_{p+1} alone *)
+  Theorem share_hides o p x x' : (p < 3)%nat ->
+    let d := share_delivery o p in
+    (forall t, in_share o (nxt p) x' (pi G gadd gneg nat Nat.eqb G [d] x x' t) = in_share o (nxt p) x t) /\
+    (forall t c, pi G gadd gneg nat Nat.eqb G [d] x' x (pi G gadd gneg nat Nat.eqb G [d] x x' t) c = t c) /\
+    (forall t c, pi G gadd gneg nat Nat.eqb G [d] x x' (pi G gadd gneg nat Nat.eqb G [d] x' x t) c = t c) /\
+    (forall t, pi G gadd gneg nat Nat.eqb G [d] x x' t p = t p /\
+               pi G gadd gneg nat Nat.eqb G [d] x x' t (nxt p) = t (nxt p)).
+  Proof.
+    intros Hp d.
+    destruct (otp_bijection G gadd gneg gzero gone gmul gsubr Gring nat Nat.eqb nat_eqb_spec G
+                [d] x x' (share_delivery_otp o p)) as (M & I1 & I2 & O).
+    repeat split; auto.
+    - intros t. specialize (M t). apply Forall_cons_iff in M as [M _].
+      rewrite <- !share_delivery_is_message. exact M.
+    - apply O. cbn. destruct p as [|[|[|p]]]; try reflexivity; lia.
+    - apply O. cbn. destruct p as [|[|[|p]]]; try reflexivity; lia.
+  Qed.
+
+  (* --- resharing (reshare): party i sends z_i + (q_i - q_{i+1}) to party i-1, where the q's are
+         three fresh PRF values (cells 0,1,2) the shares z do not depend on.  Party p holds q_p,
+         q_{p+1} and receives the message of party p+1. *)
+  Variable z : nat -> X -> tape -> G.
+  Hypothesis z_fresh : forall i x, indep G nat Nat.eqb (z i x) [0; 1; 2]%nat.
+  Definition reshare_msg (i : nat) (x : X) (t : tape) : G :=
+    gadd (z i x t) (gsub (t i) (t (nxt i))).
+  Definition reshare_delivery (p : nat) : delivery G nat X :=
+    mkD G nat X (nxt (nxt p)) true (fun x t => gadd (z (nxt p) x t) (t (nxt p))).
+
+  Lemma reshare_delivery_is_message p x t :
+    msg G gadd gneg nat X (reshare_delivery p) x t = reshare_msg (nxt p) x t.
+  Proof.
+    unfold Privacy.msg, reshare_delivery, reshare_msg, Privacy.gsub, Privacy.sgn. cbn. ring.
+  Qed.
+
+  Lemma reshare_delivery_otp p : (p < 3)%nat -> otp_ok G nat Nat.eqb X [reshare_delivery p].
+  Proof.
+    intros Hp. cbn. split; [|split; auto]. intros x t t' H. cbn.
+    rewrite (H (nxt p)) by (destruct p as [|[|[|p]]]; try reflexivity; lia).
+    f_equal. apply z_fresh. intros c Hc. apply H. cbn in *.
+    destruct p as [|[|[|p]]]; try lia; cbn; destruct c as [|[|[|c]]]; cbn in *; try discriminate; reflexivity.
+  Qed.
+
+  (* the masked share a party receives in a resharing is identically distributed whatever the
+     inputs (hence whatever the 3-out-of-3 shares z) are *)
+  Theorem reshare_hides p x x' : (p < 3)%nat ->
+    let d := reshare_delivery p in
+    (forall t, reshare_msg (nxt p) x' (pi G gadd gneg nat Nat.eqb X [d] x x' t) = reshare_msg (nxt p) x t) /\
+    (forall t c, pi G gadd gneg nat Nat.eqb X [d] x' x (pi G gadd gneg nat Nat.eqb X [d] x x' t) c = t c) /\
+    (forall t c, pi G gadd gneg nat Nat.eqb X [d] x x' (pi G gadd gneg nat Nat.eqb X [d] x' x t) c = t c) /\
+    (forall t c, c <> nxt (nxt p) -> pi G gadd gneg nat Nat.eqb X [d] x x' t c = t c).
+  Proof.
+    intros Hp d.
+    destruct (otp_bijection G gadd gneg gzero gone gmul gsubr Gring nat Nat.eqb nat_eqb_spec X
+                [d] x x' (reshare_delivery_otp p Hp)) as (M & I1 & I2 & O).
+    repeat split; auto.
+    - intros t. specialize (M t). apply Forall_cons_iff in M as [M _].
+      rewrite <- !reshare_delivery_is_message. exact M.
+    - intros t c Hc. apply O. cbn. rewrite orb_false_r. apply Nat.eqb_neq. exact Hc.
+  Qed.
+
+  (* --- reveal: the share sent to an output party is determined by the output and the two
+         shares that party already holds *)
+  Theorem reveal_simulatable (s0 s1 s2 out : G) :
+    gadd (gadd s0 s1) s2 = out ->
+    s2 = gsub (gsub out s0) s1 /\ s0 = gsub (gsub out s1) s2 /\ s1 = gsub (gsub out s2) s0.
+  Proof.
+    intros <-. unfold Privacy.gsub. repeat split; ring.
+  Qed.
+
+  (* --- oblivious transfer (mpc/utils.rs:84-120): the receiver (who knows the bit b) gets
+         i0 + r0, i1 + r1 and r_b.  For two sender inputs with the same selected message the
+         receiver's three messages are identically distributed: shift the unselected mask. *)
+  Definition ot_view (b : bool) (i0 i1 : G) (t : tape) : G * G * G :=
+    (gadd i0 (t 0%nat), gadd i1 (t 1%nat), if b then t 1%nat else t 0%nat).
+  Definition ot_pi (b : bool) (i0 i1 i0' i1' : G) (t : tape) : tape :=
+    fun c => if Nat.eqb c (if b then 0 else 1)%nat
+             then gadd (t c) (if b then gsub i0 i0' else gsub i1 i1') else t c.
+  Theorem ot_receiver_hides b i0 i1 i0' i1' :
+    (b = true -> i1 = i1') -> (b = false -> i0 = i0') ->
+    (forall t, ot_view b i0' i1' (ot_pi b i0 i1 i0' i1' t) = ot_view b i0 i1 t) /\
+    (forall t c, ot_pi b i0' i1' i0 i1 (ot_pi b i0 i1 i0' i1' t) c = t c).
+  Proof.
+    assert (S : forall a a' m, gadd a' (gadd m (gsub a a')) = gadd a m)
+      by (intros; unfold Privacy.gsub; ring).
+    assert (C : forall m a a', gadd (gadd m (gsub a a')) (gsub a' a) = m)
+      by (intros; unfold Privacy.gsub; ring).
+    intros H1 H0. destruct b; [specialize (H1 eq_refl) | specialize (H0 eq_refl)]; subst; split; intros t; unfold ot_view, ot_pi; cbn.
+    - rewrite S. reflexivity.
+    - intros c. destruct (Nat.eqb c 0); auto.
+    - rewrite S. reflexivity.
+    - intros c. destruct (Nat.eqb c 1); auto.
+  Qed.
+End Gadgets.
